@@ -36,16 +36,23 @@ def get_inherited(t: Type) -> Type:
     else:
         return Any  # type: ignore
 
-    r = base_classes[0]  # type: ignore
-
     # `Generic[T]` only declares the type variables - there is no type to inherit from it
     # (and it can't be re-parameterized with actual types).
-    if r is typing.Generic or get_origin(r) is typing.Generic:
+    real_bases = [
+        b
+        for b in base_classes  # type: ignore
+        if not (b is typing.Generic or get_origin(b) is typing.Generic)
+    ]
+    if len(real_bases) == 0:
         return Any  # type: ignore
+    r = real_bases[0]
 
     g_args = get_args(t)
-    if len(g_args) > 0:
-        mapping = {a.__name__: v for a, v in zip(r.__parameters__, g_args)}
+    if len(g_args) > 0 and get_origin(r) is not None:
+        # The arguments of `t` fill in the type variables of `t`'s own class, in the order the
+        # class declares them (which need not be the order the base class uses them in).
+        own_parameters = getattr(get_origin(t), "__parameters__", ())
+        mapping = {a.__name__: v for a, v in zip(own_parameters, g_args)}
 
         r_base = get_origin(r)
         assert r_base is not None, "Internal error"
